@@ -209,9 +209,25 @@ def r4(ck):
         if s["k"] == "assign" and s["rv"]["k"] == "agg" and s["rv"].get("adt") == APPLY_CONFIG:
             fields = s["rv"]["fields"]
             e = df.operand_expr(cmd_push, s["rv"]["ops"][fields.index("fuzz")])
-            good = df.is_call(e, "Option::<T>::unwrap_or") and e[2][1] == ("const", 0, "usize") and \
-                df.mentions(e, lambda x: df.is_call(x, "getopts::Matches::opt_str")) and df.mentions(e, lambda x: df.is_const(x, "fuzz"))
-            others = [x for x in df.walk(e) if isinstance(x, tuple) and x and x[0] == "bin"]
+            # whatever the spelling (combinators, match, if let): the value is either parsed from --fuzz or the constant 0, nothing else
+            nodes = []
+
+            def deep(x, seen, depth=0):
+                for y in df.walk(x):
+                    nodes.append(y)
+                    if isinstance(y, tuple) and y and y[0] == "local" and y[1] not in seen and depth < 6:
+                        seen.add(y[1])
+                        for dx in df.all_def_exprs(cmd_push, y[1]):
+                            deep(dx, seen, depth + 1)
+            deep(e, set())
+            has_opt = any(df.is_call(x, "getopts::Matches::opt_str") and any(df.is_const(a, "fuzz") for a in x[2]) for x in nodes)
+            has_parse = any(df.is_call(x, "::parse") or df.is_call(x, "FromStr>::from_str") or
+                            (isinstance(x, tuple) and x and x[0] == "closure") for x in nodes)
+            other_opts = [x for x in nodes if df.is_call(x, "getopts::Matches::opt_str") and not any(df.is_const(a, "fuzz") for a in x[2])]
+            ints = [x for x in nodes if isinstance(x, tuple) and x and x[0] == "const" and isinstance(x[1], int) and not isinstance(x[1], bool) and x[1] != 0
+                    and (len(x) < 3 or x[2] in ("usize", "isize", "u32", "u64", "i32", "i64"))]
+            good = has_opt and has_parse and not other_opts and not ints
+            others = [x for x in nodes if isinstance(x, tuple) and x and x[0] == "bin" and x[1].replace("WithOverflow", "") in ("Add", "Sub", "Mul", "Div", "Rem", "Shl", "Shr")]
             ck.require(good and not others, rule, "config.fuzz = parsed --fuzz, default 0", "ApplyConfig.fuzz = %s" % df.show(e, 160), cmd_push.where(s),
                        ok_detail=df.show(e, 160))
             # the closure that parses it just parses
